@@ -424,7 +424,6 @@ func swallowedPanics(f *ssa.Function) []ssa.Instruction {
 	return out
 }
 
-
 // recoverReportsFailureRule: a recovered panic is reported as an error (through a named result) or re-raised — never
 // turned into the function's zero-value return.
 func recoverReportsFailureRule(prop string, pkgs ...string) func(*Ctx) {
@@ -525,5 +524,390 @@ func ruleC03SidecarLogsCarryNoPayload(c *Ctx) {
 	}
 	if n == 0 {
 		c.unresolved("server/log-calls", "no log call found in the server package")
+	}
+}
+
+// ---------------------------------------------------------------------------------------------
+// <P>.deferred-close-spares-the-returned-key
+
+// deferredCloseOfReturned: returns of f that hand out what a deferred closure of f closes. A deferred closure that closes
+// a captured variable (a named result, or a local the returns read) runs after the return value has been put into that
+// variable; it is harmless for a return only if its guard cannot hold there: the guard tests the function's named error
+// result for non-nil, or a captured flag that a dominating store has set the other way.
+func deferredCloseOfReturned(f *ssa.Function) []ssa.Instruction {
+	var out []ssa.Instruction
+	if f.Blocks == nil {
+		return nil
+	}
+	allInstrs(f, func(i ssa.Instruction) {
+		d, ok := i.(*ssa.Defer)
+		if !ok {
+			return
+		}
+		mc, ok := d.Call.Value.(*ssa.MakeClosure)
+		if !ok {
+			return
+		}
+		g, ok := mc.Fn.(*ssa.Function)
+		if !ok || g.Blocks == nil {
+			return
+		}
+		binding := map[*ssa.FreeVar]ssa.Value{}
+		for k, b := range mc.Bindings {
+			if k < len(g.FreeVars) {
+				binding[g.FreeVars[k]] = b
+			}
+		}
+		fvOfLoad := func(v ssa.Value) *ssa.FreeVar {
+			ld, ok := strip(v).(*ssa.UnOp)
+			if !ok || ld.Op != token.MUL {
+				return nil
+			}
+			fv, _ := ld.X.(*ssa.FreeVar)
+			return fv
+		}
+		// Close calls in g on a captured pointer variable
+		allInstrs(g, func(ci ssa.Instruction) {
+			cc := callOf(ci)
+			if cc == nil || methodNameOf(cc) != "Close" {
+				return
+			}
+			rv := receiverOf(cc)
+			if rv == nil {
+				return
+			}
+			fv := fvOfLoad(rv)
+			if fv == nil {
+				return
+			}
+			x, isA := binding[fv].(*ssa.Alloc)
+			if !isA || x.Parent() != f {
+				return
+			}
+			if _, isPtr := derefType(x.Type()).Underlying().(*types.Pointer); !isPtr {
+				if _, isIf := derefType(x.Type()).Underlying().(*types.Interface); !isIf {
+					return
+				}
+			}
+			guards := factsAt(ci.Block())
+			for _, r := range returnsOf(f) {
+				// does r hand out the content of x?
+				hands := false
+				for k := range r.Results {
+					ld, ok := strip(r.Results[k]).(*ssa.UnOp)
+					if !ok || ld.Op != token.MUL {
+						continue
+					}
+					if ld.X == ssa.Value(x) {
+						hands = true
+						continue
+					}
+					// results spilled to a slot because of the defer: the slot's last store is a load of x
+					if slot, isA := ld.X.(*ssa.Alloc); isA {
+						if st := lastDominatingStore(slot, r); st != nil {
+							if l2, ok := strip(st.Val).(*ssa.UnOp); ok && l2.Op == token.MUL && l2.X == ssa.Value(x) {
+								hands = true
+							}
+						}
+					}
+				}
+				if !hands || !(instrDominates(d, r) || blockReaches(d.Block(), r.Block())) {
+					continue
+				}
+				// the value x holds at r: the last store to x that dominates r; a constant nil is nothing to close
+				last := lastDominatingStore(x, r)
+				if last != nil && isNilValue(last.Val) {
+					continue
+				}
+				safe := false
+				for _, fct := range guards {
+					// a captured flag
+					if fv2 := fvOfLoad(fct.V); fv2 != nil {
+						if y, ok := binding[fv2].(*ssa.Alloc); ok {
+							for _, ref := range *y.Referrers() {
+								st, ok := ref.(*ssa.Store)
+								if !ok || st.Addr != ssa.Value(y) || !instrDominates(st, r) {
+									continue
+								}
+								if k, isC := constOf(st.Val); isC && k.Kind() == constant.Bool && constant.BoolVal(k) != fct.True {
+									// a dominating store sets the flag against the guard; it must be the last one on the way
+									later := false
+									for _, ref2 := range *y.Referrers() {
+										if st2, ok := ref2.(*ssa.Store); ok && st2 != st && st2.Addr == ssa.Value(y) && instrDominates(st, st2) && instrDominates(st2, r) {
+											later = true
+										}
+									}
+									if !later {
+										safe = true
+									}
+								}
+							}
+						}
+					}
+					// the named error result is non-nil
+					if v, isNil, ok := nilTest(fct); ok && !isNil {
+						if fv2 := fvOfLoad(v); fv2 != nil {
+							if y, ok := binding[fv2].(*ssa.Alloc); ok && isErrorType(derefType(y.Type())) {
+								safe = true
+							}
+						}
+					}
+				}
+				if !safe {
+					out = append(out, r)
+				}
+			}
+		})
+	})
+	return out
+}
+
+func deferredCloseSparesReturnedRule(prop string, pkgs ...string) func(*Ctx) {
+	return func(c *Ctx) {
+		u := c.U1
+		c.rule(prop+".deferred-close-spares-the-returned-key", "in "+strings.Join(trimAll(pkgs), ", ")+": when a deferred closure closes a captured pointer variable, every return that hands out that variable's content is protected from it — the closure's guard tests the function's named error result for non-nil, or a captured flag that a store dominating the return has set the other way (deferred closures see the variable after the return value has been assigned to it) — expected count on the pinned tree: none; positive example in the self-test fixtures", 0)
+		in := map[string]bool{}
+		for _, p := range pkgs {
+			in[p] = true
+		}
+		for _, f := range u.RepoFuncs {
+			root := rootFunc(f)
+			if root.Pkg == nil || f.Blocks == nil || !in[root.Pkg.Pkg.Path()] {
+				continue
+			}
+			for _, r := range deferredCloseOfReturned(f) {
+				c.CallSites++
+				c.bad(trimPkgDirs(shortName(f))+"/deferred-close", u.ipos(r), "this return hands out a key that the function's deferred clean-up closure then closes (its guard does not exclude this return): the caller — and the cache the key is put into — receive a destroyed key, e.g. the key adopted after losing an insert race")
+			}
+		}
+		c.ok(prop+"/deferred-close", "", "no deferred closure closes what a return hands out")
+	}
+}
+
+// lastDominatingStore: among the stores to slot a that dominate instruction at, the one all others dominate.
+func lastDominatingStore(a *ssa.Alloc, at ssa.Instruction) *ssa.Store {
+	var last *ssa.Store
+	if a.Referrers() == nil {
+		return nil
+	}
+	for _, ref := range *a.Referrers() {
+		if st, ok := ref.(*ssa.Store); ok && st.Addr == ssa.Value(a) && instrDominates(st, at) {
+			if last == nil || instrDominates(last, st) {
+				last = st
+			}
+		}
+	}
+	return last
+}
+
+// ---------------------------------------------------------------------------------------------
+// C11.protected-struct-not-rendered
+
+// holdsBytes: t (a struct, or pointer to one) has — at depth ≤ 2 — a []byte or memguard LockedBuffer field.
+func holdsBytes(t types.Type, depth int) bool {
+	t = derefType(t)
+	st, ok := t.Underlying().(*types.Struct)
+	if !ok || depth > 2 {
+		return false
+	}
+	for i := 0; i < st.NumFields(); i++ {
+		ft := st.Field(i).Type()
+		if sl, isS := ft.Underlying().(*types.Slice); isS {
+			if b, isB := sl.Elem().Underlying().(*types.Basic); isB && b.Kind() == types.Byte {
+				return true
+			}
+		}
+		if namedTypeName(derefType(ft)) == "LockedBuffer" {
+			return true
+		}
+		if holdsBytes(ft, depth+1) {
+			return true
+		}
+	}
+	return false
+}
+
+// formatVerbs returns the verb letter consumed by each operand of a Printf-style format ('?' when it cannot tell).
+func formatVerbs(format string) []byte {
+	var out []byte
+	for i := 0; i < len(format); i++ {
+		if format[i] != '%' {
+			continue
+		}
+		i++
+		for i < len(format) && strings.IndexByte("+-# 0123456789.", format[i]) >= 0 {
+			i++
+		}
+		if i >= len(format) {
+			break
+		}
+		switch format[i] {
+		case '%':
+		case '*', '[':
+			out = append(out, '?')
+		default:
+			out = append(out, format[i])
+		}
+	}
+	return out
+}
+
+// ruleC11ProtectedStructNotRendered: the secret's inner struct holds the slice over the protected pages; rendering it
+// with a value verb (%v, %+v, %s…) makes fmt read those pages while they are PROT_NONE — the process dies with SIGSEGV.
+func ruleC11ProtectedStructNotRendered(c *Ctx) {
+	u := c.U1
+	c.rule("C11.protected-struct-not-rendered", "in both secure-memory back ends every operand of a log/fmt formatting call whose type is (a pointer to) a struct holding the protected byte slice or locked buffer is consumed by %p or %T only — a value verb makes fmt walk into the protected pages outside any access bracket", 1)
+	n := 0
+	for _, f := range u.RepoFuncs {
+		root := rootFunc(f)
+		if root.Pkg == nil || f.Blocks == nil {
+			continue
+		}
+		if p := root.Pkg.Pkg.Path(); p != pkgProt && p != pkgMemg {
+			continue
+		}
+		allInstrs(f, func(i ssa.Instruction) {
+			cc := callOf(i)
+			if cc == nil {
+				return
+			}
+			g := cc.StaticCallee()
+			if g == nil || g.Pkg == nil {
+				return
+			}
+			p, name := g.Pkg.Pkg.Path(), g.Name()
+			isFmt := (p == "fmt" || p == "log" || strings.HasSuffix(p, "/pkg/log") || strings.HasSuffix(p, "/securememory/log")) && (strings.HasSuffix(name, "f") || strings.HasPrefix(name, "Print") || strings.HasPrefix(name, "Sprint") || strings.HasPrefix(name, "Fprint"))
+			if !isFmt || len(cc.Args) == 0 {
+				return
+			}
+			// locate the format (a constant string argument followed by the variadic operands)
+			var verbs []byte
+			formatted := false
+			var ops []ssa.Value
+			for k, a := range cc.Args {
+				if kk, isC := constOf(a); isC && kk.Kind() == constant.String && strings.HasSuffix(name, "f") && !formatted {
+					verbs = formatVerbs(constant.StringVal(kk))
+					formatted = true
+					continue
+				}
+				if _, isSl := a.Type().Underlying().(*types.Slice); isSl && k == len(cc.Args)-1 {
+					ops = append(ops, varargValues(a)...)
+					continue
+				}
+				if formatted {
+					ops = append(ops, a)
+				}
+			}
+			for k, o := range ops {
+				o = strip(o)
+				if mi, ok := o.(*ssa.MakeInterface); ok {
+					o = mi.X
+				}
+				if !holdsBytes(o.Type(), 0) {
+					continue
+				}
+				n++
+				c.CallSites++
+				c.FuncsAnalysed[shortName(f)] = true
+				verb := byte('v')
+				if formatted && k < len(verbs) {
+					verb = verbs[k]
+				}
+				c.check(verb == 'p' || verb == 'T', trimPkgDirs(shortName(f))+"/"+name+"/operand", u.ipos(i), "rendered as an address only", "a struct holding the protected bytes is rendered with %"+string(verb)+": fmt reads the byte slice while its pages are inaccessible (no access bracket is open here) and the process dies with a memory fault — or, inside a bracket, the key lands in the log")
+			}
+		})
+	}
+	if n == 0 {
+		c.ok("securememory/format-operands", "", "no formatting call receives a struct that holds protected bytes")
+	}
+}
+
+// ---------------------------------------------------------------------------------------------
+// <P>.decremented-counters-cannot-wrap
+
+type fieldDecrement struct {
+	Instr    ssa.Instruction
+	Field    string
+	Unsigned bool
+	Guarded  bool
+}
+
+// fieldDecrements: stores `x.F = x.F − k` (k a positive constant) in f, with the field's signedness and whether a
+// dominating test has established F > 0 / F != 0 / F >= 1.
+func fieldDecrements(f *ssa.Function) []fieldDecrement {
+	var out []fieldDecrement
+	allInstrs(f, func(i ssa.Instruction) {
+		st, ok := i.(*ssa.Store)
+		if !ok {
+			return
+		}
+		_, fld, isF := fieldAccess(st.Addr)
+		if !isF {
+			return
+		}
+		b, ok := st.Val.(*ssa.BinOp)
+		if !ok || b.Op != token.SUB {
+			return
+		}
+		k, isC := constOf(b.Y)
+		if !isC || k.Kind() != constant.Int || constant.Sign(k) <= 0 {
+			return
+		}
+		ld, ok := b.X.(*ssa.UnOp)
+		if !ok || ld.Op != token.MUL || trimAddr(accessPath(ld.X)) != trimAddr(accessPath(st.Addr)) {
+			return
+		}
+		bt, ok := b.Type().Underlying().(*types.Basic)
+		if !ok || bt.Info()&types.IsInteger == 0 {
+			return
+		}
+		d := fieldDecrement{Instr: i, Field: fld, Unsigned: bt.Info()&types.IsUnsigned != 0}
+		ap := trimAddr(accessPath(st.Addr))
+		for _, fct := range factsAt(i.Block()) {
+			c, ok := fct.V.(*ssa.BinOp)
+			if !ok {
+				continue
+			}
+			if trimAddr(accessPath(c.X)) != ap {
+				continue
+			}
+			kk, isK := constOf(c.Y)
+			if !isK || kk.Kind() != constant.Int {
+				continue
+			}
+			z, one := constant.Sign(kk) == 0, kk.ExactString() == "1"
+			switch {
+			case c.Op == token.GTR && fct.True && z, c.Op == token.NEQ && fct.True && z, c.Op == token.EQL && !fct.True && z, c.Op == token.GEQ && fct.True && one, c.Op == token.LEQ && !fct.True && z, c.Op == token.LSS && !fct.True && one:
+				d.Guarded = true
+			}
+		}
+		out = append(out, d)
+	})
+	return out
+}
+
+// countersCannotWrapRule: a reference / reader / size counter that is decremented is of a signed type, or the
+// decrement is guarded by a test that it is positive. (A surplus release on a signed counter gives −1, which every
+// `> 0` wait or test reads as "nobody left"; on an unsigned counter it gives 2^64−1: the waiter waits forever and the
+// resource is never released.)
+func countersCannotWrapRule(prop string, floor int, pkgs ...string) func(*Ctx) {
+	return func(c *Ctx) {
+		u := c.U1
+		c.rule(prop+".decremented-counters-cannot-wrap", "in "+strings.Join(trimAll(pkgs), ", ")+": every `x.F = x.F − k` on a struct field either has a signed integer type or is dominated by a test establishing F > 0", floor)
+		in := map[string]bool{}
+		for _, p := range pkgs {
+			in[p] = true
+		}
+		for _, f := range u.RepoFuncs {
+			root := rootFunc(f)
+			if root.Pkg == nil || f.Blocks == nil || !in[root.Pkg.Pkg.Path()] {
+				continue
+			}
+			for _, d := range fieldDecrements(f) {
+				c.CallSites++
+				c.FuncsAnalysed[shortName(f)] = true
+				c.check(!d.Unsigned || d.Guarded, trimPkgDirs(shortName(f))+"/"+d.Field+"--", u.ipos(d.Instr), "signed counter (or guarded decrement)", "the counter "+d.Field+" is unsigned and decremented without a test that it is positive: one surplus release wraps it to the maximum value — whoever waits for it to reach zero (the teardown of an evicted session, Close of a secret) waits forever and the resource is never released")
+			}
+		}
 	}
 }
